@@ -1,4 +1,5 @@
 import Driver.Tag
+import Driver.Utf
 /-! `grdriver <mode>`: one input line → one output line (DESIGN.md §2 "line protocol") -/
 open Driver
 
@@ -13,4 +14,5 @@ def main (args : List String) : IO UInt32 := do
   let stdout ← IO.getStdout
   match args with
   | ["tag"] => loop stdin stdout Tag.step; return 0
+  | ["utf"] => loop stdin stdout Utf.step; return 0
   | _ => IO.eprintln "usage: grdriver <mode>"; return 2
